@@ -12,6 +12,21 @@ static void mon_cas(void* addr, uint64_t e, uint64_t d, _Bool ok, int o);
 #define XV_ON_CAS(addr, e, d, ok, order) mon_cas((void*)(addr), (uint64_t)(e), (uint64_t)(d), (ok), (order))
 #include "xv.h"
 int xv_threw; uint64_t xv_clock, xv_rmw_old; _Bool xv_cas_ok;
+#ifdef XV_INT
+/* the atomic model of xv.h with the environment step aimed at the accessed cell: identical text, XV_ENV() replaced by env_cell(&(a)) */
+static void env_cell(void* addr);
+#undef XV_A_LOAD
+#undef XV_A_STORE
+#undef XV_A_RMW
+#undef XV_A_CAS
+#define XV_A_LOAD(a, o)     (env_cell((void*)&(a)), xv_clock++, XV_ON_LOAD(&(a), (a), (o)), (a))
+#define XV_A_STORE(a, v, o) (env_cell((void*)&(a)), (a) = (v), xv_clock++, XV_ON_STORE(&(a), (a), (o)), (void)0)
+#define XV_A_RMW(op, a, v, o) (env_cell((void*)&(a)), xv_rmw_old = (uint64_t)(a), (a) = op((a), (v)), xv_clock++, \
+    XV_ON_RMW(&(a), (__typeof__(a))xv_rmw_old, (a), (o)), (__typeof__(a))xv_rmw_old)
+#define XV_A_CAS(w, a, e, d, s) (env_cell((void*)&(a)), xv_cas_ok = ((a) == *(e)) && !((w) && XV_SPURIOUS()), xv_clock++, \
+    XV_ON_CAS(&(a), *(e), (d), xv_cas_ok, (s)), \
+    (xv_cas_ok ? (void)((a) = (d)) : (void)(*(e) = (a))), xv_cas_ok)
+#endif
 
 /* ---- types: a thread_control_block* is an index into the pool (0 = null), a marked_ptr is (index << MarkBits) | mark ---- */
 typedef uint64_t mptr;
@@ -69,14 +84,21 @@ enum { OP_NONE = 0, OP_PUSH, OP_REMOVE, OP_CTOR, OP_OTHER };
 int mon_op; tcbp mon_own;                             /* the operation running and the block it was called for */
 uint64_t obs_prev[NBX], obs_next[NBX], obs_stamp[NBX];
 static int cell_of(void* addr, unsigned* ix) {
-  for (unsigned i = 0; i < NBX; i++) {
-    if (addr == (void*)&pool[i].prev) { *ix = i; return F_PREV; }
-    if (addr == (void*)&pool[i].next) { *ix = i; return F_NEXT; }
-    if (addr == (void*)&pool[i].stamp) { *ix = i; return F_STAMP; }
-  }
-  return F_NONE;
+  /* every atomic cell of the queue lives in the pool array: block index and field follow from the offset */
+  if (!__CPROVER_same_object(addr, (void*)pool)) return F_NONE;
+  size_t off = (size_t)__CPROVER_POINTER_OFFSET(addr);
+  *ix = (unsigned)(off / sizeof(struct tcb));
+  size_t fo = off % sizeof(struct tcb);
+  return fo == offsetof(struct tcb, prev) ? F_PREV : fo == offsetof(struct tcb, next) ? F_NEXT : F_STAMP;
 }
 static uint64_t* obs_at(void* addr) { unsigned ix = 0; int f = cell_of(addr, &ix); return f == F_PREV ? &obs_prev[ix] : f == F_NEXT ? &obs_next[ix] : &obs_stamp[ix]; }
+/* the per-cell observation memory is switched on (-DXV_OBS) in the INT runs and in run mark; the big SEQ runs do without it (solver time) */
+#ifdef XV_OBS
+#define OBS_SET(addr, v) (*obs_at(addr) = (v))
+#else
+#define OBS_SET(addr, v) ((void)0)
+#endif
+uint64_t m_own_stamp_ld;   /* last value loaded from the own block's stamp */
 /* head->stamp */
 unsigned m_hs_rmw_n; uint64_t m_hs_old, m_hs_clk;
 /* tail->stamp */
@@ -94,6 +116,7 @@ unsigned n_link_prev_ok, n_link_next_ok, n_mark_ok, n_help_ok, n_tail_ok, n_bump
 struct node *g_obs, *g_cas_e, *g_cas_d, *g_xchg_old, *g_xchg_new, *g_last; unsigned g_cas_n, g_cas_ok_n, g_xchg_n, g_store_n; int g_cas_order, g_xchg_order;
 
 static void havoc_obs(void); static mptr any_mptr(void); static void env_step(void);
+#define ENV_HAVOC() do { env_step(); havoc_obs(); } while (0)
 /* ---- loop cuts of the INT variants (sqi_*): invariants tie the loop-carried locals to what the thread has observed ---- */
 #define XV_INV_SMF (link == *obs_at(ptr_p) && MP_get(link) <= NB)
 #define XV_HAVOC_SMF link = any_mptr(); ENV_HAVOC() /* writes: (*ptr_p) ptr_p */
@@ -126,28 +149,29 @@ static void sqi_add_global2(struct toq* self, struct node* first_chunk, struct n
 
 static void mon_load(void* addr, uint64_t v, int o) {
   if (addr == (void*)&Q.global_retired_nodes) { g_obs = (struct node*)v; return; }
-  *obs_at(addr) = v;
+  OBS_SET(addr, v);
   if (addr == (void*)&B(I_HEAD).prev) m_hp_ld_clk = xv_clock;
+  if (mon_own && addr == (void*)&B(mon_own).stamp) m_own_stamp_ld = v;
 }
 static void mon_store(void* addr, uint64_t v, int o) {
   if (addr == (void*)&Q.global_retired_nodes) { g_store_n++; return; }
   unsigned ix = 0; int f = cell_of(addr, &ix);
   /* plain stores only go to the caller's own block (push: next, stamp, prev, stamp; remove: stamp) - or anywhere inside the constructor */
   XV_OBL("stampq.store.own_only", mon_op == OP_CTOR || (ix + 1 == mon_own && (mon_op == OP_PUSH || (mon_op == OP_REMOVE && f == F_STAMP))));
-  if (mon_op == OP_REMOVE) { XV_OBL("stampq.remove.flags_own_stamp", v == obs_stamp[ix] + NotInList && FLAGS(obs_stamp[ix]) == 0); m_own_stamp_store_n++; }   /* the stamp just read, plus NotInList */
+  if (mon_op == OP_REMOVE) { XV_OBL("stampq.remove.flags_own_stamp", v == m_own_stamp_ld + NotInList && FLAGS(m_own_stamp_ld) == 0); m_own_stamp_store_n++; }   /* the stamp just read, plus NotInList */
   if (mon_op == OP_PUSH && ix + 1 == mon_own) {
     if (f == F_STAMP) { m_xs_store_n++; m_xs_val = v; m_xs_order = o; m_xs_clk = xv_clock; }
     if (f == F_PREV) { m_xp_store_n++; m_xp_val = v; m_xp_order = o; m_xp_clk = xv_clock; }
     if (f == F_NEXT) { m_xn_store_n++; m_xn_val = v; m_xn_order = o; m_xn_clk = xv_clock; }
   }
-  *obs_at(addr) = v;
+  OBS_SET(addr, v);
 }
 static void mon_rmw(void* addr, uint64_t oldv, uint64_t newv, int o) {
   if (addr == (void*)&Q.global_retired_nodes) { g_xchg_n++; g_xchg_old = (struct node*)oldv; g_xchg_new = (struct node*)newv; g_xchg_order = o; return; }
   /* the only read-modify-write is push's fetch_add on head->stamp: one increment, seq_cst (total order with head_stamp()) */
   XV_OBL("stampq.push.fresh_stamp", addr == (void*)&B(I_HEAD).stamp && mon_op == OP_PUSH && newv == oldv + StampInc && o == mo_seq_cst);
   m_hs_rmw_n++; m_hs_old = oldv; m_hs_clk = xv_clock;
-  *obs_at(addr) = newv;
+  OBS_SET(addr, newv);
 }
 static void mon_cas(void* addr, uint64_t e, uint64_t d, _Bool ok, int o) {
   if (addr == (void*)&Q.global_retired_nodes) {
@@ -158,9 +182,11 @@ static void mon_cas(void* addr, uint64_t e, uint64_t d, _Bool ok, int o) {
     else g_obs = Q.global_retired_nodes;
     return;
   }
-  unsigned ix = 0; int f = cell_of(addr, &ix); uint64_t* ob = obs_at(addr);
+  unsigned ix = 0; int f = cell_of(addr, &ix);
+#ifdef XV_OBS
   /* L1: the expected value is what this thread saw in this very cell last */
-  XV_OBL("stampq.cas.expected_read", e == *ob);
+  XV_OBL("stampq.cas.expected_read", e == *obs_at(addr));
+#endif
   if (f == F_STAMP) {
     if (ix + 1 == I_TAIL) {                           /* tail->stamp only grows, release */
       XV_OBL("stampq.cas.stamp_writes", d > e && XV_IS_RELEASE(o));
@@ -206,7 +232,7 @@ static void mon_cas(void* addr, uint64_t e, uint64_t d, _Bool ok, int o) {
   if (ok && f == F_PREV && ix + 1 == I_HEAD) XV_CANARY("int.head_prev_bump");
   if (!ok) XV_CANARY("int.cas_failed");
 #endif
-  *ob = ok ? d : *(uint64_t*)addr;                      /* what the thread knows afterwards: its own value, or the reload of the failed CAS */
+  OBS_SET(addr, ok ? d : *(uint64_t*)addr);                      /* what the thread knows afterwards: its own value, or the reload of the failed CAS */
 }
 static void havoc_obs(void) { for (unsigned i = 0; i < NBX; i++) { obs_prev[i] = nondet_u64(); obs_next[i] = nondet_u64(); obs_stamp[i] = nondet_u64(); } }
 static void reset_monitors(void) {
@@ -229,19 +255,35 @@ static void havoc_pool(void) {
   reset_monitors();
 }
 /* ---- INT environment (rely): other threads write any well-typed value into any cell at any time, except:
- *   head->prev is never marked (head is never removed);
+ *   head->prev is never marked (head is never removed); head->stamp is a multiple of StampInc, at least StampInc (it starts there and only push's fetch_add changes it);
  *   the stamp of the caller's own block belongs to the caller - others only help a published pending stamp to its final value */
 _Bool env_on;
 static void env_step(void) {
   size_t own = mon_own ? B(mon_own).stamp : 0;
-  havoc_cells(); XV_ASSUME(!MARKED(B(I_HEAD).prev));
+  havoc_cells(); XV_ASSUME(!MARKED(B(I_HEAD).prev) && FLAGS(B(I_HEAD).stamp) == 0 && B(I_HEAD).stamp >= StampInc);
   if (mon_own && (mon_op == OP_PUSH || mon_op == OP_REMOVE))
     B(mon_own).stamp = (mon_op == OP_PUSH && pub_done && (own & PendingPush) != 0 && nondet_bool()) ? own + (StampInc - PendingPush) : own;
 }
 #ifdef XV_INT
-void xv_env(void) { if (env_on) { env_step(); Q.global_retired_nodes = nondet_node(); } }
+void xv_env(void) { }                                /* not used: the environment acts on the cell that is about to be accessed (env_cell) */
+/* Other threads may rewrite every cell between any two accesses of this thread.  What this thread can observe of that is the value of the
+ * cell it accesses next, so the environment step rewrites exactly that cell right before the access (every cell is rewritten again before
+ * its next access; the loop cuts havoc all cells at once). */
+static void env_cell(void* addr) {
+  if (!env_on) return;
+  if (addr == (void*)&Q.global_retired_nodes) { Q.global_retired_nodes = nondet_node(); return; }
+  unsigned ix = 0; int f = cell_of(addr, &ix);
+  if (f == F_PREV) { pool[ix].prev = any_mptr(); if (ix + 1 == I_HEAD) XV_ASSUME(!MARKED(pool[ix].prev)); }
+  else if (f == F_NEXT) pool[ix].next = any_mptr();
+  else if (f == F_STAMP) {
+    size_t own = pool[ix].stamp;
+    pool[ix].stamp = nondet_size();
+    if (ix + 1 == I_HEAD) XV_ASSUME(FLAGS(pool[ix].stamp) == 0 && pool[ix].stamp >= StampInc);
+    if (ix + 1 == mon_own && (mon_op == OP_PUSH || mon_op == OP_REMOVE))
+      pool[ix].stamp = (mon_op == OP_PUSH && pub_done && (own & PendingPush) != 0 && nondet_bool()) ? own + (StampInc - PendingPush) : own;
+  }
+}
 #endif
-#define ENV_HAVOC() do { env_step(); havoc_obs(); } while (0)
 
 
 /* =========================================== quiescent queue =========================================== */
@@ -342,9 +384,9 @@ void h_stamps(void) {
   havoc_pool(); mon_op = OP_OTHER; take_snap();
   uint64_t c0 = xv_clock;
   stamp_t h = sq_head_stamp(&Q);
-  XV_OBL("stampq.head_stamp.reads", h == snap[I_HEAD - 1].stamp && obs_stamp[I_HEAD - 1] == h && xv_clock == c0 + 1);     /* exactly one atomic access: the load of head->stamp */
+  XV_OBL("stampq.head_stamp.reads", h == snap[I_HEAD - 1].stamp && xv_clock == c0 + 1);     /* exactly one atomic access: the load of head->stamp */
   stamp_t t = sq_tail_stamp(&Q);
-  XV_OBL("stampq.tail_stamp.reads", t == snap[I_TAIL - 1].stamp && obs_stamp[I_TAIL - 1] == t && xv_clock == c0 + 2);
+  XV_OBL("stampq.tail_stamp.reads", t == snap[I_TAIL - 1].stamp && xv_clock == c0 + 2);
   unsigned j = nondet_uint(); XV_ASSUME(j >= 1 && j <= NB);
   XV_OBL("stampq.head_stamp.reads", same(j));
   XV_CANARY("stamps.done");
@@ -523,7 +565,7 @@ void h_global_int(void) {
 }
 void h_push_int(void) {
 #ifdef XV_INT
-  havoc_pool(); XV_ASSUME(!MARKED(B(I_HEAD).prev));
+  havoc_pool(); XV_ASSUME(!MARKED(B(I_HEAD).prev) && FLAGS(B(I_HEAD).stamp) == 0 && B(I_HEAD).stamp >= StampInc);
   mon_op = OP_PUSH; mon_own = I_X; env_on = 1;
   sqi_push(&Q, I_X);
   env_on = 0;
